@@ -224,6 +224,8 @@ NATIVE_TWINS = {
             'five standard perft positions (start 1..4, Kiwipete 1..3, position 3 1..4, position 4 1..3, position 5 1..3): leaf counts of generate_moves + apply + undo against the published figures, board restored'),
     'C02': ('c01_perft_suite', ['leaf_counts_do_not_depend_on_what_the_generator_was_asked_before'],
             'one generator reused across five standard perft positions, depths 1..3, two rounds: leaf counts equal the published figures whatever was asked before'),
+    'C05': ('c05_key_model', None,
+            '40 pseudo-random legal walks x up to 60 plies (start position and a castling-rich position), every third ply undone and replayed: key == key of the same position set up directly; undo restores the key'),
     'C06': ('c06_annotation_model', None,
             '24 positions (14 pseudo-random openings, discovered check / mate by en passant, by a quiet move, double check, promotions incl. under-promotions, back-rank mate, stalemate threat, castling check; a fresh oracle generator per successor): every listed move is annotated with the verdict of its successor; player_is_in_check / player_is_in_checkmate / game_ending agree with a brute-force reading'),
     'C07': ('c07_search_model', None,
@@ -232,6 +234,10 @@ NATIVE_TWINS = {
             '9 positions x depths 1..3 with a fresh context and 4 games x 8 plies at depth 3 with one reused context: reported score == unpruned uncached reference minimax, returned move attains it'),
     'C10': ('c10_perft_model', None,
             '4 positions x depths 0..3 x rayon pools {1,2,3,4,7,16} x fresh/reused generator: count_positions == reference count (20, 420, 9322, 206603 from the start position), board unchanged'),
+    'C11': ('c11_attack_geometry', None,
+            'rook / bishop / queen / knight / king x 64 squares x 24 pseudo-random blocker sets, pawns of both colours x 48 squares: the reported attack map equals the walked geometry (no wrap-around, rays stop at the first blocker)'),
+    'C18': ('c18_score_model', None,
+            'every (piece, colour) alone on every square, 3000 pseudo-random placements of up to 14 men, nine queens: score == -score(colour-swapped rotated position), |score| below every mate score; stalemate 0 and strictly better quicker mates at remaining depths 0..255'),
     'C14': ('c14_c15_game_model', ['coordinate_pairs_accepted_iff_legal_played_exactly_rejected_without_effect', 'typed_labels_accepted_iff_legal_played_exactly_rejected_without_effect'],
             '5 positions x all 4096 coordinate pairs (accepted iff legal, successor board and history on acceptance, nothing changed on rejection); notation strings, bounded only: 6 games x 12 plies typed as labels (2 crafted lines with tempo loss), near-miss labels of the other side / previous position rejected without effect'),
     'C15': ('c14_c15_game_model', ['engine_move_is_a_legal_move_whenever_one_exists'],
@@ -283,6 +289,16 @@ def fallback_bounded(pid):
     """Called when the deductive check is UNDECIDED (e.g. the change introduced an un-contracted helper):
     the bounded Kani twins only use the crate's PUBLIC API, so they still apply.  A counterexample is a
     violation (with CBMC's failed checks attached); a pass leaves the verdict undecided."""
+    if pid in NATIVE_TWINS:
+        # the native twin is fast: it goes first; the (slower, symbolic) Kani twin of C18 only runs if it passes
+        k = run_native_twin(dr.REPO, pid)
+        viol = []
+        if k['result'] == 'FAILED':
+            viol.append(_viol(pid, 'native-bounded', NATIVE_TWINS[pid][0] + ' (public API)', 'test-assertion', ','.join(k['failed_harnesses']) or 'twin',
+                              k['tail'], {'has_input': True, 'checker_cmd': k['cmd'], 'failed_checks': k['failed_checks'],
+                                          'concrete_playback': k['failed_checks'], 'bounded': k['bound']}))
+        if viol or pid != 'C18':
+            return {'kani': k, 'violations': viol}
     if pid == 'C18':
         k = run_kani_moves(dr.REPO, ['material_score_is_antisymmetric'], module='evaluate')
         k['bound'] = 'kings on e1/e8 plus ONE further man of symbolic kind, colour and square (kani/evaluate.rs); symmetry and range of board_material_score; public API only'
@@ -292,7 +308,7 @@ def fallback_bounded(pid):
                               k['tail'], {'has_input': bool(k.get('playback')), 'checker_cmd': k['cmd'], 'failed_checks': k['failed_checks'],
                                           'concrete_playback': k.get('playback'), 'bounded': k['bound']}))
         return {'kani': k, 'violations': viol}
-    if pid == 'C05':
+    if pid == 'C05' and os.environ.get('VX_KANI_KEY_TWIN'):
         k = run_kani_moves(dr.REPO, ['key_is_function_of_position_two_ply', 'two_ply_apply_undo_board_a'])
         k['bound'] = 'board_a of kani/moves.rs, six fixed first moves x a symbolic reply: key == key of the same position set up directly; key restored by undo; public API only'
         viol = []
@@ -300,14 +316,6 @@ def fallback_bounded(pid):
             viol.append(_viol(pid, 'kani-bounded', 'position key (public API)', 'kani-assertion', ','.join(k['failed_harnesses']) or 'key',
                               k['tail'], {'has_input': bool(k.get('playback')), 'checker_cmd': k['cmd'], 'failed_checks': k['failed_checks'],
                                           'concrete_playback': k.get('playback'), 'bounded': k['bound']}))
-        return {'kani': k, 'violations': viol}
-    if pid in NATIVE_TWINS:
-        k = run_native_twin(dr.REPO, pid)
-        viol = []
-        if k['result'] == 'FAILED':
-            viol.append(_viol(pid, 'native-bounded', NATIVE_TWINS[pid][0] + ' (public API)', 'test-assertion', ','.join(k['failed_harnesses']) or 'twin',
-                              k['tail'], {'has_input': True, 'checker_cmd': k['cmd'], 'failed_checks': k['failed_checks'],
-                                          'concrete_playback': k['failed_checks'], 'bounded': k['bound']}))
         return {'kani': k, 'violations': viol}
     if pid not in FALLBACK_PROPS:
         return None
@@ -399,6 +407,21 @@ def _viol(pid, unit, fn, kind, clause, text, extra):
 
 
 def run(pid, cfg, tier, seed):
+    """side engines of a property; in the thorough tier the bounded native twin (if any) is added to whatever the
+    property's own side engines report"""
+    res = _run_base(pid, cfg, tier, seed)
+    if tier == 'thorough' and pid in NATIVE_TWINS and not (res and 'native_bounded_twin' in res.get('report', {})):
+        fb = fallback_bounded(pid)
+        if fb is not None:
+            res = res or {'report': {}, 'backends': [], 'violations': []}
+            res['report']['native_bounded_twin'] = fb['kani']
+            res['backends'] = list(res.get('backends', [])) + ['native differential test (bounded stand-in)']
+            res['violations'] = list(res.get('violations', [])) + fb['violations']
+            res['bounded'] = list(res.get('bounded', [])) + [fb['kani']['bound']]
+    return res
+
+
+def _run_base(pid, cfg, tier, seed):
     repo = dr.REPO
     if pid == 'C05':
         rep = {'zobrist_distinctness': []}
@@ -459,10 +482,6 @@ def run(pid, cfg, tier, seed):
         fb = fallback_bounded(pid)
         return {'report': {'kani_bounded_twin': fb['kani']}, 'backends': ['kani-cbmc (bounded stand-in)'], 'violations': fb['violations'],
                 'bounded': [fb['kani']['bound']]}
-    if pid in NATIVE_TWINS and tier == 'thorough':
-        fb = fallback_bounded(pid)
-        return {'report': {'native_bounded_twin': fb['kani']}, 'backends': ['native differential test (bounded stand-in)'],
-                'violations': fb['violations'], 'bounded': [fb['kani']['bound']]}
     if pid in FALLBACK_PROPS and tier == 'thorough':
         k = run_kani_moves(repo, MOVE_HARNESSES)
         viol = []
